@@ -197,6 +197,19 @@ func deref(cur any) (any, string, bool) {
 			}
 			cur = *p
 		default:
+			isRowPtr := false
+			for _, rk := range rowKinds {
+				if d, isPtr, isNil := rk.derefp(cur); isPtr {
+					if isNil {
+						return nil, rNilPointer, thru
+					}
+					cur, isRowPtr = d, true
+					break
+				}
+			}
+			if isRowPtr {
+				break
+			}
 			if cur != nil && reflect.TypeOf(cur).Kind() == reflect.Ptr {
 				return nil, unspec, thru // a pointer type this oracle has no Go code for
 			}
@@ -220,6 +233,11 @@ func index(cur any, st Step) (any, string, string) {
 	k := st.K
 	if v, o, kind, isIntMap := indexIntMap(cur, st, pfx); isIntMap {
 		return v, o, kind
+	}
+	for _, rk := range rowKinds {
+		if v, o, how, isRow := rk.field(cur, st.K); isRow {
+			return v, o, pfx + "struct(same-named type " + rk.name + ")" + how
+		}
 	}
 	switch c := cur.(type) {
 	case nil:
@@ -507,6 +525,9 @@ func validSteps(cur any) []string {
 	if keys, _, _, ok := intMapInfo(cur); ok {
 		return intMapValid(keys)
 	}
+	if rk, ok := rowKindOf(cur); ok {
+		return rk.valid
+	}
 	cur, out, _ := deref(cur)
 	if out != reach {
 		return nil
@@ -614,6 +635,9 @@ func invalidSteps(cur any, avoid func(id string) bool) []string {
 	}
 	if keys, bits, signed, ok := intMapInfo(cur); ok {
 		return intMapInvalid(keys, bits, signed)
+	}
+	if rk, ok := rowKindOf(cur); ok {
+		return rk.invalid
 	}
 	if n, ok := seqLen(cur); ok {
 		return []string{strconv.Itoa(n), strconv.Itoa(n + 3), "-1", "-2", "x", "99999999999999999999"}
